@@ -53,7 +53,8 @@ type StepObs struct {
 	XErr   string  `json:"x_err,omitempty"`   // error text (report only, never compared)
 	Oracle *Oracle `json:"oracle,omitempty"`  // observed answers of library oracles for this step
 	Post   *Post   `json:"post,omitempty"`    // projected state after the step
-	Pre    *AggPre `json:"pre,omitempty"`     // aggregate: projected pre-state features
+	COracles []*Oracle         `json:"client_oracles,omitempty"` // genesis: oracle answers per listed client
+	Res      map[string]string `json:"res,omitempty"`            // aggregate: set-up addresses substituted into the proposal (hex)
 }
 
 type ExtraInfo struct {
